@@ -515,6 +515,8 @@ class Interp:
         return out
 
     def e_Call(s, n, env):
+        if isinstance(n.func, ast.Name) and n.func.id == 'super':
+            return SuperObj()
         f = s.ev(n.func, env)
         args = []
         for a in n.args:
